@@ -106,14 +106,47 @@ mod n {
                 std::fs::write(dir.join("cubo_sliver.ctehexml"), t).unwrap();
             }
         }
+        // ... and `cubo` turned by 30 degrees with its space shifted, and with an overhang and two fins on every window
+        // (no result files: the default and the --use-extra conversion read the project alone)
+        let turned = tmp_dir("c01-turned");
+        let shaded = tmp_dir("c01-shaded");
+        if let Some(cubo) = dirs.iter().find(|d| d.file_name().map(|n| n == "cubo").unwrap_or(false)) {
+            let text = std::fs::read_to_string(ctehexml_of(cubo).unwrap()).unwrap_or_default();
+            let mut t = text.clone();
+            if let Some(bp) = t.find("= BUILD-PARAMETERS") {
+                if let Some(az) = t[bp..].find("AZIMUTH   = 0.000000") {
+                    t.replace_range(bp + az..bp + az + "AZIMUTH   = 0.000000".len(), "AZIMUTH   = 30.000000");
+                }
+            }
+            if let Some(sp) = t.find("\"P01_E01\" = SPACE") {
+                let eol = sp + t[sp..].find('\n').unwrap_or(0);
+                t.insert_str(eol + 1, "            X = 3\n            Y = 7\n            Z = 0\n");
+            }
+            std::fs::write(turned.join("cubo_turned.ctehexml"), &t).unwrap();
+            let mut out = String::new();
+            let mut in_window = false;
+            for line in text.split_inclusive('\n') {
+                let tr = line.trim();
+                if tr.starts_with('"') && tr.ends_with("= WINDOW") {
+                    in_window = true;
+                } else if in_window && tr == ".." {
+                    out.push_str("         OVERHANG-A = 0.3\n         OVERHANG-B = 0.2\n         OVERHANG-D = 0.6\n         OVERHANG-W = 2.4\n         LEFT-FIN-D = 0.5\n         LEFT-FIN-H = 1.1\n         RIGHT-FIN-D = 0.4\n         RIGHT-FIN-H = 1.0\n");
+                    in_window = false;
+                }
+                out.push_str(line);
+            }
+            std::fs::write(shaded.join("cubo_shaded.ctehexml"), &out).unwrap();
+        }
         let mut dirs = dirs;
         dirs.push(kygbad.clone());
         dirs.push(sliver.clone());
         dirs.push(sliver_bare.clone());
+        dirs.push(turned.clone());
+        dirs.push(shaded.clone());
         let have_bins = bin("hulc2model").exists() && bin("thor").exists();
-        drive("C01.export", "the real hulc2model binary on the 12 shipped project directories x {default, --use-extra}, on an empty directory, a directory without project, a missing one and two directories whose project the library rejects (cut in half, broken reference) and a copy of `cubo` with a damaged KyGananciasSolares.txt (converts by default, fails with --use-extra), two synthetic variants of `cubo` with a zero-area ground slab (with / without perimeter insulation); the same directory given with a trailing slash and as a relative path; thor -o on the 12 project files, into a new file and over an existing longer one; compared with collect_hulc_data / Model::try_from in this process", |c| {
+        drive("C01.export", "the real hulc2model binary on the 12 shipped project directories x {default, --use-extra}, on an empty directory, a directory without project, a missing one and two directories whose project the library rejects (cut in half, broken reference) and a copy of `cubo` with a damaged KyGananciasSolares.txt (converts by default, fails with --use-extra), four synthetic variants of `cubo` (a zero-area ground slab with / without perimeter insulation; turned by 30 degrees with its space shifted; an overhang and two fins on every window); the same directory given with a trailing slash and as a relative path; thor -o on the 12 project files, into a new file and over an existing longer one; compared with collect_hulc_data / Model::try_from in this process", |c| {
             c.check("C01.tools_built", have_bins, || format!("hulc2model / thor not found in {:?}", std::env::var("VERIF_BIN_DIR")));
-            c.check("C01.corpus", dirs.len() >= 15 && std::fs::read_to_string(sliver.join("cubo_sliver.ctehexml")).map(|t| t.contains("P01_E01_FTER000_Pol") && t.matches("P01_E01_FTER000\"").count() >= 1).unwrap_or(false), || format!("{} project directories", dirs.len()));
+            c.check("C01.corpus", dirs.len() >= 17 && std::fs::read_to_string(turned.join("cubo_turned.ctehexml")).map(|t| t.contains("AZIMUTH   = 30.000000") && t.contains("            X = 3\n")).unwrap_or(false) && std::fs::read_to_string(shaded.join("cubo_shaded.ctehexml")).map(|t| t.contains("OVERHANG-D = 0.6")).unwrap_or(false) && std::fs::read_to_string(sliver.join("cubo_sliver.ctehexml")).map(|t| t.contains("P01_E01_FTER000_Pol") && t.matches("P01_E01_FTER000\"").count() >= 1).unwrap_or(false), || format!("{} project directories", dirs.len()));
             if !have_bins {
                 return;
             }
@@ -218,6 +251,8 @@ mod n {
         let _ = std::fs::remove_dir_all(&kygbad);
         let _ = std::fs::remove_dir_all(&sliver);
         let _ = std::fs::remove_dir_all(&sliver_bare);
+        let _ = std::fs::remove_dir_all(&turned);
+        let _ = std::fs::remove_dir_all(&shaded);
         let _ = std::fs::remove_dir_all(&cut);
         let _ = std::fs::remove_dir_all(&broken);
     }
